@@ -25,10 +25,14 @@ for d in sorted(glob.glob(os.path.join(V, "seeded", "C*-*"))):
     res = det.get("result", "not run") if isinstance(det, dict) else "not run"
     rep = (det.get("first_report", "") if isinstance(det, dict) else "")[:150]
     rows.append(f"| {name} | {', '.join(os.path.basename(f) for f in files)} | {what[:170].replace('|', '/')} | {res} | {rep.replace('|', '/')} |")
-caught = sum("CAUGHT" in r for r in rows)
+results = [r.split(" | ")[3] for r in rows]
+caught = sum(x.startswith("CAUGHT") for x in results)
+retired = sum(x.startswith("RETIRED") for x in results)
+missed = sum(x.startswith("MISSED") for x in results)
 text = (f"{len(rows)} seeded changes, each written by an independent sub-agent that saw only the property text and a scratch worktree, each confirmed here "
         f"(`tools/seedconfirm.sh`: applies to HEAD, the unedited suite passes with it, its demonstration exits 1 with and 0 without the change); "
-        f"{caught} are detected by the quick tier of their property's check run against a copy of the repository with the change applied (`tools/seedtest.sh`).\n\n"
+        f"{caught} are detected by the quick tier of their property's check run against a copy of the repository with the change applied (`tools/seedtest.sh`), "
+        f"{missed} by the thorough tier only (the quick tier misses it), {retired} were retired when a repair in `/repo` made them inapplicable.\n\n"
         "| change | file | what it does | quick check of its property | first line of the report |\n|---|---|---|---|---|\n" + "\n".join(rows) + "\n")
 p = os.path.join(V, "DESIGN.md"); s = open(p).read()
 b, e = "<!-- seedtable:begin -->", "<!-- seedtable:end -->"
